@@ -61,6 +61,7 @@ Lemma exec_fields_noraise : forall fields k xs, noraise (exec_fields k fields xs
 Proof.
   induction fields as [|fb r IH]; intros k xs; cbn [exec_fields]; [apply noraise_ret|].
   apply noraise_bind; [apply resolve_field_noraise|]. intros a.
+  apply noraise_if; [apply noraise_ret|].
   apply noraise_bind; [apply IH|]. intros b. apply noraise_ret.
 Qed.
 
@@ -185,12 +186,12 @@ Definition block (ph : phase) (n : N) (mid : list event) (xs : list (N * ext)) :
 Fixpoint fields_log (k : N) (fields : list rbeh) (xs : list (N * ext)) : list event :=
   match fields with
   | [] => []
-  | fb :: r => block (PResolve k) (rn fb) [] xs ++ fields_log (k + 1) r xs
+  | fb :: r => block (PResolve k) (rn fb) [] xs ++ if is_fatal fb then [] else fields_log (k + 1) r xs
   end.
 Fixpoint fields_errs (k : N) (fields : list rbeh) (xs : list (N * ext)) : N :=
   match fields with
   | [] => 0
-  | fb :: r => (start_errs (PResolve k) xs + fin_errs (PResolve k) xs + rn fb) + fields_errs (k + 1) r xs
+  | fb :: r => (start_errs (PResolve k) xs + fin_errs (PResolve k) xs + rn fb) + if is_fatal fb then 0 else fields_errs (k + 1) r xs
   end.
 
 Lemma handle_inits_eq : forall xs, handle_inits xs = (inits xs, Ret (init_errs xs)).
@@ -237,8 +238,10 @@ Lemma exec_fields_eq : forall fields k xs,
   exec_fields k fields xs = (fields_log k fields xs, Ret (fields_errs k fields xs)).
 Proof.
   induction fields as [|fb r IH]; intros k xs; [reflexivity|].
-  cbn [exec_fields fields_log fields_errs]. rewrite resolve_field_eq, bind_ret_eq, IH, bind_ret_eq, prepend_ret.
-  unfold prepend; cbn [fst snd]. reflexivity.
+  cbn [exec_fields fields_log fields_errs]. rewrite resolve_field_eq, bind_ret_eq.
+  destruct (is_fatal fb).
+  - rewrite prepend_ret, app_nil_r, N.add_0_r. reflexivity.
+  - rewrite IH, bind_ret_eq, prepend_ret. unfold prepend; cbn [fst snd]. reflexivity.
 Qed.
 
 Definition body_log (c : cls) xs : list event := match c with CExec fields => fields_log 0 fields xs | _ => [] end.
@@ -454,7 +457,7 @@ Qed.
 Lemma proj_fields_log : forall e fields k xs, proj e (fields_log k fields xs) = fields_log k fields (pick e xs).
 Proof.
   intros e. induction fields as [|fb r IH]; intros k xs; [reflexivity|].
-  cbn [fields_log]. rewrite proj_app, proj_block, IH. reflexivity.
+  cbn [fields_log]. rewrite proj_app, proj_block. destruct (is_fatal fb); [reflexivity|]. rewrite IH. reflexivity.
 Qed.
 
 Lemma proj_body_log : forall e c xs, proj e (body_log c xs) = body_log c (pick e xs).
@@ -658,7 +661,7 @@ Proof.
   - apply G_nil. le2_solve.
   - apply (G_app (6, 2 * (k + 1))).
     + eapply G_weaken; [| |apply G_block0]; le2_solve.
-    + apply IH.
+    + destruct (is_fatal fb); [apply G_nil; le2_solve | apply IH].
 Qed.
 
 Lemma G_inits : forall e x, G (0, 0) (1, 0) (inits [(e, x)]).
@@ -723,7 +726,7 @@ Proof.
 Qed.
 
 Lemma fields_log_nil : forall fields k, fields_log k fields [] = [].
-Proof. induction fields as [|fb r IH]; intros k; [reflexivity|]. cbn [fields_log]. rewrite IH. reflexivity. Qed.
+Proof. induction fields as [|fb r IH]; intros k; [reflexivity|]. cbn [fields_log]. rewrite IH. destruct (is_fatal fb); reflexivity. Qed.
 
 Lemma shape_nil : forall F c, shape F c [] = [].
 Proof.
@@ -862,4 +865,318 @@ Proof.
   - apply balanced_balancedb. apply model_balanced.
   - unfold nestedb. apply forallb_forall. intros e _. apply model_nested.
   - unfold orderedb. apply forallb_forall. intros e _. apply model_ordered.
+Qed.
+
+(* ------------------------------------------------------------------ *)
+(* 6. Every failed hook is reported as an error of the result.         *)
+(* ------------------------------------------------------------------ *)
+
+Lemma count_cons : forall p ev l, count p (ev :: l) = (if p ev then 1 else 0) + count p l.
+Proof. intros. unfold count. cbn [filter]. destruct (p ev); cbn [length]; lia. Qed.
+Lemma count_nil : forall p, count p [] = 0.
+Proof. reflexivity. Qed.
+
+Lemma fail_inits : forall xs, count is_failure (inits xs) = init_errs xs.
+Proof.
+  induction xs as [|[i x] r IH]; [reflexivity|].
+  unfold inits in *. cbn [flat_map init_errs]. unfold init_ev at 1. cbn [fst snd app].
+  rewrite count_cons, IH. cbn [is_failure]. destruct (is_ok (x_init x)); reflexivity.
+Qed.
+
+Lemma fail_block : forall ph n mid xs,
+  count is_failure (block ph n mid xs) = start_errs ph xs + fin_errs ph xs + count is_failure mid.
+Proof.
+  intros ph n mid xs. unfold block. rewrite !count_app.
+  assert (H : count is_failure (starts ph xs) + count is_failure (fins ph n xs) = start_errs ph xs + fin_errs ph xs).
+  { induction xs as [|[i x] r IH]; [reflexivity|].
+    unfold starts, fins in *. cbn [flat_map start_errs fin_errs]. unfold start_ev at 1, fin_ev at 1. cbn [fst snd].
+    rewrite !count_app. destruct (start_beh ph x) as [[|v]| |v]; cbn [sres_of]; rewrite ?count_cons, ?count_nil; cbn [is_failure is_ok negb]; lia. }
+  lia.
+Qed.
+
+Lemma fail_results : forall xs, count is_failure (results xs) = res_errs xs.
+Proof.
+  induction xs as [|[i x] r IH]; [reflexivity|].
+  unfold results in *. cbn [flat_map res_errs]. unfold res_ev at 1. cbn [fst snd]. rewrite count_app, IH.
+  destruct (x_has x); rewrite ?count_cons, ?count_nil; cbn [is_failure]; [destruct (is_ok (x_get x))| |]; cbn [negb]; lia.
+Qed.
+
+Lemma fail_fields : forall fields k xs, count is_failure (fields_log k fields xs) <= fields_errs k fields xs.
+Proof.
+  induction fields as [|fb r IH]; intros k xs; [cbn; lia|].
+  cbn [fields_log fields_errs]. rewrite count_app, fail_block, count_nil. specialize (IH (k + 1) xs).
+  destruct (is_fatal fb); [rewrite count_nil|]; lia.
+Qed.
+
+Lemma fail_body : forall c xs, count is_failure (body_log c xs) <= body_errs c xs.
+Proof. intros [| | | |fields] xs; cbn [body_log body_errs]; try (rewrite count_nil; lia). apply fail_fields. Qed.
+
+Lemma nz_false : forall n, nz n = false -> n = 0.
+Proof. intros n H. unfold nz in H. apply negb_false_iff in H. apply N.eqb_eq in H. exact H. Qed.
+
+Lemma fail_shape : forall c xs, count is_failure (shape (flags_of c xs) c xs) <= total_errs c xs.
+Proof.
+  intros c xs. unfold shape, total_errs, parse_part, parse_errs, valid_part, valid_errs, exec_part, exec_errs.
+  cbn [flags_of f_init f_ps f_pf f_vs f_vsn f_vf f_es f_esn f_eb].
+  rewrite count_app, fail_inits.
+  destruct (nz (init_errs xs)) eqn:E0; [rewrite count_nil; lia|]. apply nz_false in E0. rewrite E0.
+  pose proof (fail_body c xs) as HB.
+  destruct (nz (start_errs PParse xs)) eqn:E1; [rewrite fail_block, count_nil; lia|]. apply nz_false in E1.
+  assert (HE : count is_failure
+                 (if nz (start_errs PExec xs) then block PExec (start_errs PExec xs) [] xs
+                  else block PExec (body_errs c xs) (body_log c xs) xs ++ results xs) <=
+               (if nz (start_errs PExec xs) then start_errs PExec xs + fin_errs PExec xs
+                else body_errs c xs + fin_errs PExec xs + res_errs xs)).
+  { destruct (nz (start_errs PExec xs)) eqn:E5; [rewrite fail_block, count_nil; lia|]. apply nz_false in E5.
+    rewrite count_app, fail_block, fail_results. lia. }
+  assert (HV : count is_failure (block PValid 0 [] xs ++
+                 (if nz (fin_errs PValid xs) then [] else match c with COpErr => [] | _ =>
+                    if nz (start_errs PExec xs) then block PExec (start_errs PExec xs) [] xs
+                    else block PExec (body_errs c xs) (body_log c xs) xs ++ results xs end)) <=
+               start_errs PValid xs +
+               (if nz (fin_errs PValid xs) then fin_errs PValid xs else match c with COpErr => 1 | _ =>
+                    if nz (start_errs PExec xs) then start_errs PExec xs + fin_errs PExec xs
+                    else body_errs c xs + fin_errs PExec xs + res_errs xs end)).
+  { rewrite count_app, fail_block, count_nil.
+    destruct (nz (fin_errs PValid xs)) eqn:E4; [rewrite count_nil; lia|]. apply nz_false in E4.
+    destruct c; try lia. rewrite count_nil. lia. }
+  assert (HP : count is_failure (block PParse 0 [] xs ++
+                 (if nz (fin_errs PParse xs) then [] else
+                  if nz (start_errs PValid xs) then block PValid (start_errs PValid xs) [] xs else
+                  match c with
+                  | CInvalid m => block PValid (m + 1) [] xs
+                  | _ => block PValid 0 [] xs ++
+                     (if nz (fin_errs PValid xs) then [] else match c with COpErr => [] | _ =>
+                        if nz (start_errs PExec xs) then block PExec (start_errs PExec xs) [] xs
+                        else block PExec (body_errs c xs) (body_log c xs) xs ++ results xs end)
+                  end)) <=
+               (if nz (fin_errs PParse xs) then fin_errs PParse xs else
+                if nz (start_errs PValid xs) then start_errs PValid xs + fin_errs PValid xs else
+                match c with
+                | CInvalid m => fin_errs PValid xs + (m + 1)
+                | _ => if nz (fin_errs PValid xs) then fin_errs PValid xs else
+                       match c with COpErr => 1 | _ =>
+                         if nz (start_errs PExec xs) then start_errs PExec xs + fin_errs PExec xs
+                         else body_errs c xs + fin_errs PExec xs + res_errs xs end
+                end)).
+  { rewrite count_app, fail_block, count_nil.
+    destruct (nz (fin_errs PParse xs)) eqn:E2; [rewrite count_nil; lia|]. apply nz_false in E2.
+    destruct (nz (start_errs PValid xs)) eqn:E3; [rewrite fail_block, count_nil; lia|]. apply nz_false in E3.
+    rewrite E3 in HV.
+    destruct c; try (destruct (nz (fin_errs PValid xs)); lia).
+    rewrite fail_block, count_nil. lia. }
+  rewrite N.add_0_l.
+  destruct c; try exact HP.
+  rewrite fail_block, count_nil. lia.
+Qed.
+
+Theorem model_reported : forall c exts log n keys,
+  do_model c exts = Done log n keys -> reportedb log n = true.
+Proof.
+  intros c exts log n keys H. unfold do_model in H.
+  destruct (do_m_log c (index_from 0 exts)) as [HL [ks HS]].
+  destruct (do_m c (index_from 0 exts)) as [l r]. cbn [fst snd] in HL, HS. subst r l.
+  injection H as H1 H2 H3. subst log n. unfold reportedb. apply N.leb_le. apply fail_shape.
+Qed.
+
+(* ------------------------------------------------------------------ *)
+(* 7. Later phases do not start once the request has failed.           *)
+(* ------------------------------------------------------------------ *)
+
+Definition quiet (l : list event) : Prop := forall ev, In ev l -> fails_request ev = None.
+
+Lemma stops_app : forall l1 l2,
+  stopsb l1 = true -> stopsb l2 = true ->
+  (forall ev b, In ev l1 -> fails_request ev = Some b -> forallb (allowed_after b) l2 = true) ->
+  stopsb (l1 ++ l2) = true.
+Proof.
+  induction l1 as [|ev r IH]; intros l2 H1 H2 H3; [exact H2|].
+  cbn [app stopsb] in *. apply andb_true_iff in H1. destruct H1 as [H1 H1'].
+  apply andb_true_iff. split.
+  - destruct (fails_request ev) as [b|] eqn:E; [|reflexivity].
+    rewrite forallb_app, H1. apply (H3 ev b (or_introl eq_refl) E).
+  - apply IH; [exact H1' | exact H2 |]. intros ev' b I. apply H3. right. exact I.
+Qed.
+
+Lemma stops_quiet : forall l, quiet l -> stopsb l = true.
+Proof.
+  induction l as [|ev r IH]; intros Q; [reflexivity|].
+  cbn [stopsb]. rewrite (Q ev (or_introl eq_refl)). cbn. apply IH. intros ev' I. apply Q. right. exact I.
+Qed.
+
+Lemma stops_app_quiet : forall l1 l2, quiet l1 -> stopsb l2 = true -> stopsb (l1 ++ l2) = true.
+Proof.
+  intros l1 l2 Q H. apply stops_app; [apply stops_quiet; exact Q | exact H |].
+  intros ev b I E. rewrite (Q ev I) in E. discriminate.
+Qed.
+
+Lemma stops_within : forall b l,
+  (forall ev, In ev l -> allowed_after b ev = true) ->
+  (forall ev b', In ev l -> fails_request ev = Some b' -> b' = b) ->
+  stopsb l = true.
+Proof.
+  intros b. induction l as [|ev r IH]; intros A F; [reflexivity|].
+  cbn [stopsb]. apply andb_true_iff. split.
+  - destruct (fails_request ev) as [b'|] eqn:E; [|reflexivity].
+    rewrite (F ev b' (or_introl eq_refl) E). apply forallb_forall. intros ev' I. apply A. right. exact I.
+  - apply IH; [intros ev' I; apply A; right; exact I | intros ev' b' I; apply F; right; exact I].
+Qed.
+
+Lemma in_inits : forall ev xs, In ev (inits xs) -> exists ix, In ix xs /\ ev = EInit (fst ix) (is_ok (x_init (snd ix))).
+Proof.
+  intros ev xs H. unfold inits in H. apply in_flat_map in H. destruct H as [ix [I [H|[]]]]. exists ix. split; [exact I | symmetry; exact H].
+Qed.
+Lemma in_starts : forall ev ph xs, In ev (starts ph xs) ->
+  exists ix, In ix xs /\ ev = EStart (fst ix) ph (sres_of (start_beh ph (snd ix))).
+Proof.
+  intros ev ph xs H. unfold starts in H. apply in_flat_map in H. destruct H as [ix [I [H|[]]]]. exists ix. split; [exact I | symmetry; exact H].
+Qed.
+Lemma in_fins : forall ev ph n xs, In ev (fins ph n xs) ->
+  exists ix b, In ix xs /\ start_beh ph (snd ix) = SFn b /\ ev = EFinish (fst ix) ph n (is_ok b).
+Proof.
+  intros ev ph n xs H. unfold fins in H. apply in_flat_map in H. destruct H as [ix [I H]].
+  unfold fin_ev in H. destruct (start_beh ph (snd ix)) as [b| |v] eqn:E; try contradiction.
+  destruct H as [H|[]]. exists ix, b. split; [exact I|]. split; [exact E | symmetry; exact H].
+Qed.
+
+Lemma init_errs_zero : forall xs ix, init_errs xs = 0 -> In ix xs -> is_ok (x_init (snd ix)) = true.
+Proof.
+  induction xs as [|a r IH]; intros ix Z I; [contradiction|]. cbn [init_errs] in Z.
+  destruct I as [I|I].
+  - subst a. destruct (is_ok (x_init (snd ix))); [reflexivity | lia].
+  - apply IH; [lia | exact I].
+Qed.
+Lemma start_errs_zero : forall ph xs ix, start_errs ph xs = 0 -> In ix xs -> sres_of (start_beh ph (snd ix)) <> SRFail.
+Proof.
+  intros ph. induction xs as [|a r IH]; intros ix Z I; [contradiction|]. cbn [start_errs] in Z.
+  destruct I as [I|I].
+  - subst a. destruct (start_beh ph (snd ix)); cbn; try discriminate. lia.
+  - apply IH; [lia | exact I].
+Qed.
+Lemma fin_errs_zero : forall ph xs ix, fin_errs ph xs = 0 -> In ix xs ->
+  start_beh ph (snd ix) = SFn BOk \/ exists v, start_beh ph (snd ix) = SPanic v.
+Proof.
+  intros ph. induction xs as [|a r IH]; intros ix Z I; [contradiction|]. cbn [fin_errs] in Z.
+  destruct I as [I|I].
+  - subst a. destruct (start_beh ph (snd ix)) as [[|v]| |v]; try lia; [left; reflexivity | right; exists v; reflexivity].
+  - apply IH; [lia | exact I].
+Qed.
+
+Lemma in_block0 : forall ev ph n xs, In ev (block ph n [] xs) -> In ev (starts ph xs) \/ In ev (fins ph n xs).
+Proof. intros ev ph n xs H. unfold block in H. cbn [app] in H. apply in_app_or in H. exact H. Qed.
+
+(* a block of parse / validation / execution (with nothing inside) stays within its phase *)
+Lemma stops_block : forall ph b n xs,
+  (ph = PParse /\ b = 2) \/ (ph = PValid /\ b = 4) \/ (ph = PExec /\ b = 7) ->
+  stopsb (block ph n [] xs) = true.
+Proof.
+  intros ph b n xs Hph. apply (stops_within b).
+  - intros ev I. apply in_block0 in I. destruct I as [I|I].
+    + apply in_starts in I. destruct I as [ix [_ E]]. subst ev.
+      destruct Hph as [[P B]|[[P B]|[P B]]]; subst ph b; reflexivity.
+    + apply in_fins in I. destruct I as [ix [b0 [_ [_ E]]]]. subst ev.
+      destruct Hph as [[P B]|[[P B]|[P B]]]; subst ph b; reflexivity.
+  - intros ev b' I E. apply in_block0 in I. destruct I as [I|I].
+    + apply in_starts in I. destruct I as [ix [_ E']]. subst ev.
+      destruct Hph as [[P B]|[[P B]|[P B]]]; subst ph b; cbn in E;
+        match type of E with context [sres_of ?t] => destruct (sres_of t) end; congruence.
+    + apply in_fins in I. destruct I as [ix [b0 [_ [_ E']]]]. subst ev.
+      destruct Hph as [[P B]|[[P B]|[P B]]]; subst ph b; cbn in E;
+        try destruct ((0 <? n) || negb (is_ok b0)); congruence.
+Qed.
+
+(* a parse / validation block that succeeded contains no failing event *)
+Lemma quiet_block : forall ph xs,
+  ph = PParse \/ ph = PValid ->
+  start_errs ph xs = 0 -> fin_errs ph xs = 0 -> quiet (block ph 0 [] xs).
+Proof.
+  intros ph xs Hph ZS ZF ev I. apply in_block0 in I. destruct I as [I|I].
+  - apply in_starts in I. destruct I as [ix [I E]]. subst ev.
+    destruct (fin_errs_zero ph xs ix ZF I) as [H|[v H]].
+    + rewrite H. destruct Hph; subst ph; reflexivity.
+    + exfalso. apply (start_errs_zero ph xs ix ZS I). rewrite H. reflexivity.
+  - apply in_fins in I. destruct I as [ix [b [I [S E]]]]. subst ev.
+    destruct (fin_errs_zero ph xs ix ZF I) as [H|[v H]]; rewrite H in S; [|discriminate].
+    injection S as S. subst b. destruct Hph; subst ph; reflexivity.
+Qed.
+
+Lemma quiet_inits : forall xs, init_errs xs = 0 -> quiet (inits xs).
+Proof.
+  intros xs Z ev I. apply in_inits in I. destruct I as [ix [I E]]. subst ev.
+  rewrite (init_errs_zero xs ix Z I). reflexivity.
+Qed.
+
+Lemma quiet_fields : forall fields k xs, quiet (fields_log k fields xs).
+Proof.
+  induction fields as [|fb r IH]; intros k xs ev I; [contradiction|].
+  cbn [fields_log] in I. apply in_app_or in I.
+  destruct I as [I|I]; [|destruct (is_fatal fb); [contradiction | eapply IH; exact I]].
+  apply in_block0 in I. destruct I as [I|I].
+  - apply in_starts in I. destruct I as [ix [_ E]]. subst ev. reflexivity.
+  - apply in_fins in I. destruct I as [ix [b [_ [_ E]]]]. subst ev. reflexivity.
+Qed.
+
+Lemma quiet_exec : forall c n xs, start_errs PExec xs = 0 ->
+  quiet (block PExec n (body_log c xs) xs ++ results xs).
+Proof.
+  intros c n xs Z ev I. apply in_app_or in I. destruct I as [I|I].
+  - unfold block in I. apply in_app_or in I. destruct I as [I|I].
+    + apply in_starts in I. destruct I as [ix [I E]]. subst ev.
+      pose proof (start_errs_zero PExec xs ix Z I) as NF.
+      cbn [fails_request]. destruct (sres_of (start_beh PExec (snd ix))); try reflexivity. congruence.
+    + apply in_app_or in I. destruct I as [I|I].
+      * destruct c as [| | | |fields]; cbn [body_log] in I; try contradiction. eapply quiet_fields; exact I.
+      * apply in_fins in I. destruct I as [ix [b [_ [_ E]]]]. subst ev. reflexivity.
+  - unfold results in I. apply in_flat_map in I. destruct I as [ix [_ I]]. unfold res_ev in I.
+    destruct (x_has (snd ix)); cbn in I; repeat (destruct I as [I|I]; [subst ev; reflexivity|]); contradiction.
+Qed.
+
+Lemma stops_inits : forall xs, stopsb (inits xs) = true.
+Proof.
+  intros xs. apply (stops_within 0).
+  - intros ev I. apply in_inits in I. destruct I as [ix [_ E]]. subst ev. reflexivity.
+  - intros ev b' I E. apply in_inits in I. destruct I as [ix [_ E']]. subst ev. cbn in E.
+    destruct (is_ok (x_init (snd ix))); congruence.
+Qed.
+
+Lemma stops_shape : forall c xs, stopsb (shape (flags_of c xs) c xs) = true.
+Proof.
+  intros c xs. unfold shape, parse_part, valid_part, exec_part.
+  cbn [flags_of f_init f_ps f_pf f_vs f_vsn f_vf f_es f_esn f_eb].
+  destruct (nz (init_errs xs)) eqn:E0; [rewrite app_nil_r; apply stops_inits|]. apply nz_false in E0.
+  apply stops_app_quiet; [apply quiet_inits; exact E0|].
+  destruct (nz (start_errs PParse xs)) eqn:E1; [apply (stops_block PParse 2); auto|]. apply nz_false in E1.
+  assert (HE : stopsb (if nz (start_errs PExec xs) then block PExec (start_errs PExec xs) [] xs
+                       else block PExec (body_errs c xs) (body_log c xs) xs ++ results xs) = true).
+  { destruct (nz (start_errs PExec xs)) eqn:E5; [apply (stops_block PExec 7); auto|]. apply nz_false in E5.
+    apply stops_quiet. apply quiet_exec. exact E5. }
+  assert (HV : start_errs PValid xs = 0 ->
+               stopsb (block PValid 0 [] xs ++
+                 (if nz (fin_errs PValid xs) then [] else match c with COpErr => [] | _ =>
+                    if nz (start_errs PExec xs) then block PExec (start_errs PExec xs) [] xs
+                    else block PExec (body_errs c xs) (body_log c xs) xs ++ results xs end)) = true).
+  { intros E3. destruct (nz (fin_errs PValid xs)) eqn:E4; [rewrite app_nil_r; apply (stops_block PValid 4); auto|].
+    apply nz_false in E4. apply stops_app_quiet; [apply quiet_block; auto|].
+    destruct c; try exact HE. reflexivity. }
+  assert (HP : stopsb (block PParse 0 [] xs ++
+                 (if nz (fin_errs PParse xs) then [] else
+                  if nz (start_errs PValid xs) then block PValid (start_errs PValid xs) [] xs else
+                  match c with
+                  | CInvalid m => block PValid (m + 1) [] xs
+                  | _ => block PValid 0 [] xs ++
+                     (if nz (fin_errs PValid xs) then [] else match c with COpErr => [] | _ =>
+                        if nz (start_errs PExec xs) then block PExec (start_errs PExec xs) [] xs
+                        else block PExec (body_errs c xs) (body_log c xs) xs ++ results xs end)
+                  end)) = true).
+  { destruct (nz (fin_errs PParse xs)) eqn:E2; [rewrite app_nil_r; apply (stops_block PParse 2); auto|].
+    apply nz_false in E2. apply stops_app_quiet; [apply quiet_block; auto|].
+    destruct (nz (start_errs PValid xs)) eqn:E3; [apply (stops_block PValid 4); auto|]. apply nz_false in E3.
+    destruct c; try (apply HV; exact E3). apply (stops_block PValid 4); auto. }
+  destruct c; try exact HP. apply (stops_block PParse 2); auto.
+Qed.
+
+Theorem model_stops : forall c exts, stopsb (result_log (do_model c exts)) = true.
+Proof.
+  intros c exts. rewrite result_log_eq. destruct (do_m_log c (index_from 0 exts)) as [HL _]. rewrite HL.
+  apply stops_shape.
 Qed.
